@@ -6,6 +6,7 @@ mod prng;
 mod probe;
 mod props;
 mod report;
+mod th;
 mod trace;
 mod vt;
 
